@@ -80,12 +80,10 @@ def ref_eff_cancelled(snap, c: int):
     start = c
     while c and seen < 200:
         sc = snap["scopes"][c]
-        if c != start and not sc["active"]:
-            return 0
         if sc["cancelled"]:
-            return c
-        if sc["shield"]:
-            return 0
+            return c                     # the scope's own flag counts even if it has been left
+        if sc["shield"] or (c != start and not sc["active"]):
+            return 0                     # ... but nothing above a shielded or a left scope is visible
         c = sc["parent"]
         seen += 1
     return 0
@@ -98,12 +96,10 @@ def ref_visible_cancelled_set(snap, c: int):
     start = c
     while c and seen < 200:
         sc = snap["scopes"][c]
-        if c != start and not sc["active"]:
-            break                        # an exited scope cuts the chain (see ref_eff_cancelled)
         if sc["cancelled"]:
             out.append(c)
-        if sc["shield"]:
-            break
+        if sc["shield"] or (c != start and not sc["active"]):
+            break                        # nothing above a shielded or a left scope is visible (see ref_eff_cancelled)
         c = sc["parent"]
         seen += 1
     return out
@@ -678,8 +674,6 @@ class History:
             seen = 0
             while c and seen < 200:
                 sc = scopes[c]
-                if c != tk["cur"] and not sc["active"]:
-                    break                # the chain is cut by a scope that was left while tasks remained inside (misuse)
                 if sc["cancelled"]:
                     if sc["host"]:
                         self.flags.add("reach_nonempty")
@@ -690,8 +684,8 @@ class History:
                             if t in self._via_start:
                                 self.v("C07", f"step {i}: task {t} was started with start() into a group whose scope chain shows the cancelled scope {c}, but nothing is cancelling it: it is not treated as an ordinary member of the group")
                     break
-                if sc["shield"]:
-                    break
+                if sc["shield"] or (c != tk["cur"] and not sc["active"]):
+                    break                # the chain is cut by a shield or by a scope that was left (misuse)
                 c = sc["parent"]
                 seen += 1
 
